@@ -110,8 +110,12 @@ claim("C18", "other",
       "no gkvlite lock is held while a visitor callback, a comparator or a StoreFile method runs (lock-set obligations at every callback site), every function under contract returns with the lock set it was entered with, and newIterator hands the requested target/value mode to the producer.",
       A_COMMON + " The Next/Close/iterate channel handshake, goroutine exit and re-entrant callbacks are NOT decided: goroutines and channel operations are outside the verifier's subset (family limit; a model checker is the fitting tool).")
 
+claim("C16", "other",
+      "Two parts, labelled separately. PROVED (obligations): Len cannot panic at any size (the nil item of an empty collection is handled -- D2 found by the nil-dereference obligation and repaired), releases the reference MinItem takes (D12, repaired), reads no value byte and changes no version; its counting visitor counts every call and satisfies the visitor contract; determineBlocks yields at most 1024 blocks of positive length. "
+      "BOUNDED (stand-in, not a proof): Len() == n and 'every key exactly once' for VisitItemsAscendBlockEx (5 block permutations) and VisitItemsRandom are decided by running the real functions for every size n in 0..48 and around 1024 and 2048 (thorough: 0..200 and around 1024, 2048, 3072, 4096) -- this found D3 (VisitItemsRandom repeats the last item when the last block is partial), repaired.",
+      A_COMMON + " Why bounded: the block visits and Len thread closure state (counters, the block table) through the visit recursion via callbacks; carrying such an invariant needs a higher-order (visitor-invariant) contract that the first-order per-function contracts of this technique do not have.")
+
 for pid, why in {
     "C11": "CopyTo not under contract yet in this round",
-    "C16": "Len and the block visits not under contract yet in this round",
 }.items():
     not_yet(pid, why)
